@@ -3,6 +3,7 @@
 // -DM2_VERIF: sandbox type with an LP32-like ABI and integer pointer representation; default: no-op sandbox.
 #pragma once
 #define RLBOX_SINGLE_THREADED_INVOCATIONS
+#include <array>
 #include <memory>
 #include <string>
 #ifndef M2_VERIF
@@ -11,7 +12,11 @@
 #include "rlbox.hpp"
 #ifdef M2_VERIF
 #  include "verif_sandbox.hpp"
+#  ifdef M2_VERIF64
+using S = rlbox::rlbox_verif64_sandbox;          // integer pointer representation as wide as a host pointer
+#  else
 using S = rlbox::rlbox_verif32_sandbox;
+#  endif
 struct S2cfg : rlbox::verif_cfg32 {};
 using S2 = rlbox::rlbox_verif_sandbox<S2cfg>;          // a different sandbox TYPE
 #else
@@ -51,7 +56,7 @@ struct Env
   // wrappers that belong to ANOTHER sandbox type
   rlbox::tainted<int, S2>& x_int; rlbox::tainted<int*, S2>& x_pint; rlbox::sandbox_callback<Fn, S2>& x_cb;
   // plain application values
-  int p_int; bool p_bool; long p_long; int* p_pint; const char* p_pcchar; char* p_pchar; void* p_pvoid; Fn p_fn; int p_arr[4]; St p_st; int* p_parr[2]; St* p_pst;
+  int p_int; bool p_bool; long p_long; int* p_pint; const char* p_pcchar; char* p_pchar; void* p_pvoid; Fn p_fn; int p_arr[4]; St p_st; int* p_parr[2]; St* p_pst; std::array<int*, 2> p_sarr;
 };
 void take_int(int); void take_bool(bool); void take_long(long); void take_pint(int*); void take_pcchar(const char*); void take_pvoid(void*);
 void take_double(double); void take_fn(Fn); void take_st(St); void take_uchar(unsigned char); void take_ullong(unsigned long long); void take_en(En);
